@@ -1031,7 +1031,63 @@ def rule_r15(ctx) -> RuleResult:
     return rr
 
 
+def rule_r16(ctx, sf: SqlFacts) -> RuleResult:
+    """A context attribute that is filled, keyed by or with values computed from a looked-up page (`self.X[page.title] =
+    f(page.body)`), is a second copy of part of the page store.  Like the lookup memo (R1) it has to be invalidated by every
+    writer of `pages`; a reset in start_page() alone leaves the read-overwrite-read history on one page stale (seed C10-7A: a
+    per-page cache of encoded template bodies)."""
+    rr = RuleResult("C10.R16", "caches derived from looked-up pages are invalidated by every writer of `pages`", min_instances=1)
+    readers = ("get_page", "get_page_resolve_redirect", "get_page_body", "read_by_title")
+    caches = {}   # attr -> (function, node)
+    for dotted, m, f in ctx.index.all_functions():
+        if not dotted.startswith("core.Wtp."):
+            continue
+        tainted = set()
+        changed = True
+        while changed:
+            changed = False
+            for n in walk_no_nested(f):
+                if isinstance(n, ast.Assign) and len(n.targets) == 1 and isinstance(n.targets[0], ast.Name) and n.targets[0].id not in tainted:
+                    v = n.value
+                    src = any(isinstance(c, ast.Call) and isinstance(c.func, ast.Attribute) and c.func.attr in readers for c in ast.walk(v)) \
+                        or any(isinstance(x, ast.Name) and x.id in tainted for x in ast.walk(v))
+                    if src:
+                        tainted.add(n.targets[0].id)
+                        changed = True
+        if not tainted:
+            continue
+        for n in walk_no_nested(f):
+            if isinstance(n, ast.Assign) and len(n.targets) == 1 and isinstance(n.targets[0], ast.Subscript):
+                t = n.targets[0]
+                if isinstance(t.value, ast.Attribute) and isinstance(t.value.value, ast.Name) and t.value.value.id == "self":
+                    if any(isinstance(x, ast.Name) and x.id in tainted for x in list(ast.walk(t.slice)) + list(ast.walk(n.value))):
+                        caches.setdefault(t.value.attr, (dotted, n))
+    writers = sorted({s_.function for s_ in sf.on_table("pages") if s_.writes and s_.kind in ("INSERT", "UPDATE", "DELETE")})
+    if len(writers) < 3:
+        raise AnalysisError("C10.R16: only {} writer functions of table pages found (3 confirmed by hand)".format(len(writers)))
+    rr.instances["page_derived_caches"] = sorted(caches)
+    if not caches:
+        rr.ok("core.Wtp", "no context attribute is filled from looked-up pages", {"writers": writers})
+        return rr
+    for attr, (where, node) in sorted(caches.items()):
+        for w in writers:
+            fn = ctx.index.func(w)
+            cleared = any((isinstance(c, ast.Call) and isinstance(c.func, ast.Attribute) and c.func.attr in ("clear", "pop", "popitem")
+                           and unparse(c.func.value).endswith("." + attr))
+                          or (isinstance(c, ast.Assign) and any(unparse(t).endswith("self." + attr) for t in c.targets))
+                          or (isinstance(c, ast.Delete) and any(("self." + attr) in unparse(t) for t in c.targets))
+                          for c in ast.walk(fn))
+            if cleared:
+                rr.ok(w, "invalidates self." + attr)
+            else:
+                rr.bad(Finding("C10.R16", CORE, w, "self.{} (filled in {})".format(attr, where.split(".")[-1]),
+                               "`self.{}` holds data computed from looked-up pages ({}), and this writer of `pages` does not invalidate it: "
+                               "after the page is overwritten the old content keeps being used".format(attr, unparse(node)[:60]),
+                               fn.lineno))
+    return rr
+
+
 def run(ctx) -> list:
     sf = SqlFacts(ctx.index)
     return [rule_r1(ctx, sf), rule_r2(ctx, sf), rule_r3(ctx, sf), rule_r4(ctx, sf), rule_r5(ctx, sf), rule_r6(ctx, sf),
-            rule_r7(ctx, sf), rule_r8(ctx), rule_r9(ctx), rule_r10(ctx), rule_r11(ctx, sf), rule_r12(ctx, sf), rule_r13(ctx), rule_r14(ctx), rule_r15(ctx)]
+            rule_r7(ctx, sf), rule_r8(ctx), rule_r9(ctx), rule_r10(ctx), rule_r11(ctx, sf), rule_r12(ctx, sf), rule_r13(ctx), rule_r14(ctx), rule_r15(ctx), rule_r16(ctx, sf)]
